@@ -1232,6 +1232,10 @@ for _pid, _rule in (("C12", "L1"), ("C01", "N5")):
         _eta_helper("        def eta(tau):\n            return self.eta_function(max(tau, 0.0), **kwargs)\n"))
     ok(_pid, "eta evaluated through a local lambda helper", 
        _eta_helper("        eta = lambda tau: self.eta_function(tau, **kwargs)\n"))
+    brk(_pid, "eta helper returns 0 for every non-positive argument", _rule,
+        _eta_helper("        def eta(tau):\n            if tau <= 0.0:\n                return 0.0\n            return self.eta_function(tau, **kwargs)\n"))
+    ok(_pid, "eta helper with the exact shortcut eta(0) = 0",
+       _eta_helper("        def eta(tau):\n            if tau == 0.0:\n                return 0.0\n            return self.eta_function(tau, **kwargs)\n"))
     ok(_pid, "eta evaluated through a nested helper function with a float cast",
        _eta_helper("        def eta(tau):\n            return self.eta_function(float(tau), **kwargs)\n"))
 
@@ -1335,6 +1339,51 @@ ok("C08", "system legs exchanged by _apply_pt_mpos(reverse=True) instead of by t
     _AP_SYS_FLAGGED, _sub(SD, _BP_SYS_SWAP, '')))
 ok("C03", "system legs exchanged by _apply_pt_mpos(reverse=True) instead of by the backward MPO copies", _multi(
     _AP_SYS_FLAGGED, _sub(SD, _BP_SYS_SWAP, '')))
+
+# ------------------------------------------------------------------ C13 G7: stepping continues from the current step
+brk("C13", "Tempo.compute ignores the steps already taken", "G7", _sub(
+    TE, '        num_step = max(0, end_step - start_step)\n        return num_step\n\n    @property', '        num_step = max(0, end_step)\n        return num_step\n\n    @property'))
+brk("C13", "PtTebd.compute counts its steps from the step it was initialised with", "G7", _sub(
+    TEBD, '            while self.step < tmp_end_step:\n                self.compute_step()', '            for _ in range(max(0, tmp_end_step - self._start_step)):\n                self.compute_step()'))
+ok("C13", "PtTebd.compute counts the remaining steps from the current step", _sub(
+    TEBD, '            while self.step < tmp_end_step:\n                self.compute_step()', '            for _ in range(max(0, tmp_end_step - self.step)):\n                self.compute_step()'))
+
+# ------------------------------------------------------------------ C14 T8: compute() changes state only through guarded stepping
+_TEBD_TAIL = '            prog_bar.update(self.step - start_step)\n\n        return self.get_results()\n'
+brk("C14", "PtTebd.compute applies the post controls of the step it stops at", "T8", _sub(
+    TEBD, _TEBD_TAIL, '            prog_bar.update(self.step - start_step)\n\n        self._apply_controls(step=self.step, post=True)\n\n        return self.get_results()\n'))
+brk("C14", "Tempo.compute re-initialises its back end before returning", "T8", _sub(
+    TE, '                self._dynamics.add(self._time(step), state.reshape(dim, dim))\n            prog_bar.update(num_step)\n',
+    '                self._dynamics.add(self._time(step), state.reshape(dim, dim))\n            prog_bar.update(num_step)\n        self._backend_instance.initialize()\n'))
+ok("C14", "PtTebd.compute reads the bond dimensions after the loop", _sub(
+    TEBD, _TEBD_TAIL, '            prog_bar.update(self.step - start_step)\n\n        bond_dims = self._t_mps.get_bond_dimensions()\n\n        return self.get_results()\n'))
+ok("C14", "PtTebd.compute applies nothing after the loop when no step was taken", _sub(
+    TEBD, _TEBD_TAIL, '            prog_bar.update(self.step - start_step)\n\n        if self.step is None:\n            self.initialize()\n\n        return self.get_results()\n'))
+
+# ------------------------------------------------------------------ C15 U5: the estimator samples the system on the computation's window
+_EST_A = '    num = 11\n    times = np.linspace(start_time, end_time, num, endpoint=True)\n    max_freq = _max_tdependentsystem_frequency(system, times)\n'
+_EST_B = '        times = np.linspace(start_time, end_time, num, endpoint=True)\n        new_max_freq = _max_tdependentsystem_frequency(system, times)\n'
+def _est(grid, helper=''):
+    return _multi(
+        _sub(TE, _EST_A, helper + '    num = 11\n    times = ' + grid + '\n    max_freq = _max_tdependentsystem_frequency(system, times)\n'),
+        _sub(TE, _EST_B, '        times = ' + grid + '\n        new_max_freq = _max_tdependentsystem_frequency(system, times)\n'))
+brk("C15", "system frequencies sampled on [0, end - start]", "U5", _est('np.linspace(0, end_time - start_time, num, endpoint=True)'))
+brk("C15", "system frequencies sampled on [start, end - start]", "U5", _est('np.linspace(start_time, end_time - start_time, num, endpoint=True)'))
+ok("C15", "system frequencies sampled through a local grid helper over [start, end]", _est(
+    'sample_times(num)', '    def sample_times(count):\n        return np.linspace(start_time, end_time, count, endpoint=True)\n\n'))
+ok("C15", "system frequencies sampled on [start, start + (end - start)]", _est(
+    'np.linspace(start_time, start_time + (end_time - start_time), num, endpoint=True)'))
+
+# ------------------------------------------------------------------ C11 K9: truncation relative to the largest singular value only
+_SVD_CUT = '        chi = argmax(singular_values/amax(singular_values) < precision)\n        if not chi:\n            chi = len(singular_values)\n'
+brk("C11", "Gibbs SVD truncation with an absolute floor at machine epsilon", "K9", _sub(
+    TB, _SVD_CUT, '        threshold = max(precision * singular_values[0], np.finfo(float).eps)\n        chi = max(1, np.count_nonzero(singular_values >= threshold))\n'))
+brk("C11", "Gibbs SVD truncation by the absolute size of the singular values", "K9", _sub(
+    TB, _SVD_CUT, '        chi = argmax(singular_values < precision)\n        if not chi:\n            chi = len(singular_values)\n'))
+ok("C11", "Gibbs SVD truncation written as s < precision * s[0]", _sub(
+    TB, _SVD_CUT, '        cutoff = precision * singular_values[0]\n        chi = argmax(singular_values < cutoff)\n        if not chi:\n            chi = len(singular_values)\n'))
+ok("C11", "Gibbs SVD truncation keeps at least one value, counted against the relative threshold", _sub(
+    TB, _SVD_CUT, '        chi = max(1, np.count_nonzero(singular_values >= precision * amax(singular_values)))\n'))
 
 for _pid in ["C01", "C02", "C03", "C04", "C05", "C06", "C07", "C08", "C09", "C10", "C11", "C12", "C13",
              "C14", "C15", "C16", "C17", "C18", "C19", "C20"]:
